@@ -254,7 +254,10 @@ def diff_diag(text, text2):
     """mechanism of a printed-form difference"""
     import re
 
-    nz = lambda t: re.sub(r"(?<![\w.)\]])-0(?![\w.])", "0", t)
+    # the layout (line breaks chosen by the formatter) follows the text: compare without white space
+    # ... and a negated negative literal (`--4.0`, from folding inside a negation) the same way as `-0`:
+    # the parser folds both, the value is unchanged
+    nz = lambda t: re.sub(r"\s+", "", re.sub(r"(?<![\w.)\]])--(?=\d)", "", re.sub(r"(?<![\w.)\]])-0(?![\w.])", "0", t)))
     return {"only_negated_integer_zero": text != text2 and nz(text) == nz(text2)}
 
 
